@@ -152,7 +152,9 @@ func init() {
 		// ---- sync: state machines are trivial under cooperative scheduling
 		"(*sync.Mutex).Lock":      lockIntr("Mutex.Lock"),
 		"(*sync.Mutex).Unlock":    lockIntr("Mutex.Unlock"),
-		"(*sync.Mutex).TryLock":   func(w *Worker, fr *frame, a []Value) (Value, bool) { return mkBool(true), true },
+		"(*sync.Mutex).TryLock":    tryLockIntr("Mutex.Lock"),
+		"(*sync.RWMutex).TryLock":  tryLockIntr("RWMutex.Lock"),
+		"(*sync.RWMutex).TryRLock": tryLockIntr("RWMutex.RLock"),
 		"(*sync.RWMutex).Lock":    lockIntr("RWMutex.Lock"),
 		"(*sync.RWMutex).Unlock":  lockIntr("RWMutex.Unlock"),
 		"(*sync.RWMutex).RLock":   lockIntr("RWMutex.RLock"),
@@ -390,6 +392,36 @@ func lockIntr(what string) intrinsic {
 			w.lockHook(what, args[0].(*Value), fr)
 		}
 		return nil, true
+	}
+}
+
+// tryLockIntr: TryLock / TryRLock.  Under schedule exploration the attempt
+// fails exactly when another goroutine holds the mutex in a conflicting mode;
+// under cooperative scheduling there is no contention and it succeeds.
+func tryLockIntr(what string) intrinsic {
+	return func(w *Worker, fr *frame, args []Value) (Value, bool) {
+		p := args[0].(*Value)
+		if w.E.Cfg.ExploreSchedules && !w.inSetup {
+			w.stub("sync TryLock/TryRLock (fails exactly when the mutex is held in a conflicting mode)")
+			w.mainG()
+			w.schedPoint("TryLock")
+			st := w.muOf(p)
+			free := st.writer == nil && (what == "RWMutex.RLock" || st.readers == 0)
+			if !free {
+				return mkBool(false), true
+			}
+			if what == "RWMutex.RLock" {
+				st.readers++
+			} else {
+				st.writer = w.curG
+			}
+		} else {
+			w.stub("sync TryLock/TryRLock (cooperative scheduling: no contention, succeeds)")
+		}
+		if w.lockHook != nil {
+			w.lockHook(what, p, fr)
+		}
+		return mkBool(true), true
 	}
 }
 
